@@ -74,6 +74,7 @@ type Exec struct {
 	allowPanic []string
 	funcsSeen map[*ssa.Function]bool
 	rvalues  map[*Agg]Value // reflect.Value objects created by the model -> what they hold
+	inJSONMethod map[*ssa.Function]bool // custom (Un)MarshalJSON methods being run by the JSON model (no re-entry)
 	blocksSeen map[*ssa.BasicBlock]bool
 	spec     bool // speculative (fork-free) evaluation
 	pr       *pathReport
